@@ -461,6 +461,15 @@ func (fr *Frame) mapUpdate(x *ssa.MapUpdate, st *State) {
 	fr.frameCheckRef(st, m.T, "map", x.Pos())
 	// insert-only protected maps: an existing entry is never overwritten
 	for _, a := range u.insertOnlyAddrs {
+		// only maps of the same static type can be the protected map
+		if len(a.Sels) > 0 {
+			last := a.Sels[len(a.Sels)-1]
+			if stt, ok := last.cont.Underlying().(*types.Struct); ok && last.field >= 0 && last.field < stt.NumFields() {
+				if !types.Identical(stt.Field(last.field).Type().Underlying(), mt) {
+					continue
+				}
+			}
+		}
 		cur := u.loadAddr(st, a)
 		u.oblige(fr, st, "insertonly", "", implies(eq(cur, m.T), not(fmt.Sprintf("(select %s %s)", u.mapDom(st, mt, m.T), k))), x.Pos(), "an entry of an insert-only protected map is overwritten (lost update if another goroutine inserted it)")
 		break
